@@ -162,10 +162,30 @@ def main():
             probe.disable()
             ctx.notes.append({'probe': probe.summary()})
     except Exception as e:
-        # an exception escaping the harness is treated as an infrastructure problem, not as a verdict
-        print(f"INFRASTRUCTURE ERROR in harness: {type(e).__name__}: {e}")
-        traceback.print_exc()
-        return 2
+        # an exception escaping the harness is an infrastructure problem, not a verdict — unless it was raised INSIDE the implementation by a call the
+        # harness makes unguarded because it cannot fail on the pinned tree (reference values, set-up calls): then the implementation raised on an input of
+        # the property's domain where it used to return, which is a failing input (the traceback is the replay); the rest of the module's run is lost
+        tb = traceback.extract_tb(e.__traceback__)
+        impl_root = os.path.join(os.path.abspath(core.REPO), 'eqsig')
+        in_impl = [fr_ for fr_ in tb if os.path.abspath(fr_.filename).startswith(impl_root)]
+        if in_impl and tb and os.path.abspath(tb[-1].filename).startswith(impl_root):
+            last_h = [fr_ for fr_ in tb if not os.path.abspath(fr_.filename).startswith(impl_root)][-1:]
+            try:
+                ctx.flush()
+            except Exception:  # noqa
+                pass
+            ctx.oracle(f"{prop} the implementation returns on the inputs of the property's domain (it raised {type(e).__name__} inside a call that cannot fail on the pinned tree)",
+                       False, inputs={'harness_call': (f"{os.path.basename(last_h[0].filename)}:{last_h[0].lineno}: {last_h[0].line}" if last_h else '?'),
+                                      'raised_at': f"{os.path.relpath(in_impl[-1].filename, core.REPO)}:{in_impl[-1].lineno}: {in_impl[-1].line}"},
+                       detail={'exception': f"{type(e).__name__}: {e}", 'traceback': traceback.format_exc()[-3000:]},
+                       facts={'fn': 'harness-unguarded-call'})
+            ctx.notes.append('the module run was aborted by an exception raised inside the implementation; later sections did not run')
+            if probe is not None:
+                probe.disable()
+        else:
+            print(f"INFRASTRUCTURE ERROR in harness: {type(e).__name__}: {e}")
+            traceback.print_exc()
+            return 2
 
     # ---- step 5: decide
     known = [k for k in load_known() if k.get('property') == prop]
